@@ -54,12 +54,14 @@ pub enum EvKind {
 #[derive(Clone, Debug)]
 pub struct Ev {
     pub at: u64,
+    /// original deadline: events deferred by a stall keep their deadline order among themselves
+    pub orig: u64,
     pub seq: u64,
     pub kind: EvKind,
 }
 impl PartialEq for Ev {
     fn eq(&self, o: &Self) -> bool {
-        (self.at, self.seq) == (o.at, o.seq)
+        (self.at, self.orig, self.seq) == (o.at, o.orig, o.seq)
     }
 }
 impl Eq for Ev {}
@@ -70,7 +72,7 @@ impl PartialOrd for Ev {
 }
 impl Ord for Ev {
     fn cmp(&self, o: &Self) -> std::cmp::Ordering {
-        (self.at, self.seq).cmp(&(o.at, o.seq))
+        (self.at, self.orig, self.seq).cmp(&(o.at, o.orig, o.seq))
     }
 }
 
@@ -226,7 +228,12 @@ impl World {
 
     pub fn push(&mut self, at: u64, kind: EvKind) {
         self.seq += 1;
-        self.queue.push(Reverse(Ev { at, seq: self.seq, kind }));
+        self.queue.push(Reverse(Ev { at, orig: at, seq: self.seq, kind }));
+    }
+    /// re-queue an event that a stalled node could not take yet, keeping its original deadline as tie-breaker
+    fn defer(&mut self, at: u64, orig: u64, kind: EvKind) {
+        self.seq += 1;
+        self.queue.push(Reverse(Ev { at, orig, seq: self.seq, kind }));
     }
     pub fn schedule_op(&mut self, at: u64, op_index: usize) {
         self.push(at, EvKind::Op(op_index));
@@ -401,7 +408,7 @@ impl World {
                 if self.stalled_until[d] > self.now {
                     let at = self.stalled_until[d];
                     self.stats.inc("fault_stall_deferred");
-                    self.push(at, EvKind::Deliver { to_addr, from_addr, data, idx, damaged });
+                    self.defer(at, ev.orig, EvKind::Deliver { to_addr, from_addr, data, idx, damaged });
                     return Ok(Some(None));
                 }
                 self.events += 1;
@@ -431,12 +438,24 @@ impl World {
                 if self.stalled_until[i] > self.now {
                     let at = self.stalled_until[i];
                     self.stats.inc("fault_stall_deferred");
-                    self.push(at, EvKind::Timer { addr, proc_epoch, timer });
+                    self.defer(at, ev.orig, EvKind::Timer { addr, proc_epoch, timer });
                     return Ok(Some(None));
                 }
                 self.events += 1;
                 self.stats.inc("timers_fired");
                 let rec = self.call(addr, Input::Timer(timer));
+                // the world delivers every timer exactly once, in deadline order (however late): C13 says
+                // handle_timer never returns an error then
+                if let Some(r) = &rec {
+                    if let Res::Err(e) = r.result {
+                        self.violations.push(Violation {
+                            property: "C13",
+                            tag: "C13/handle-timer-error".into(),
+                            detail: format!("node {addr}: {} returned {e:?} although timers are delivered exactly once in deadline order", r.input.kind()),
+                            at: self.now,
+                        });
+                    }
+                }
                 Ok(Some(rec.map(|rec| StepInfo { at: self.now, addr, rec, dgram: None })))
             }
         }
